@@ -228,9 +228,19 @@ def run_check(module, tier, seed, jobs, deadline_s):
                           if s.name in capped) != total:
             raise InternalError('case count mismatch')
 
+    from mc.lib import api as _api
+    fraction = getattr(module, 'MIN_NONTRIVIAL_FRACTION', 0.0)
+    if _api.SKIPPED:
+        # function-level spaces left out because a private function was
+        # renamed or takes other arguments: the spaces that remain have
+        # their own, lower share of non-trivial cases
+        fraction *= 0.25
     floor = max(getattr(module, 'MIN_NONTRIVIAL', 2),
-                int(getattr(module, 'MIN_NONTRIVIAL_FRACTION', 0.0)
-                    * agg['n']))
+                int(fraction * agg['n']))
+    if _api.SKIPPED and agg['n'] == 0:
+        # nothing left to run: reported as not decided in the evidence and
+        # on the summary line, neither a pass with content nor an alarm
+        floor = 0
     if agg['nontrivial'] < floor and not agg['viol'] and not capped:
         raise InternalError(
             'vacuous exploration: only %d of %d cases were non-trivial '
@@ -410,6 +420,9 @@ def summarize(evidence, out=sys.stdout):
            cov['evaluations'], cov['distinct_nontrivial'],
            cov['distinct_outcomes'], cov['exhaustive'],
            evidence['violations'], evidence['wall_s']))
+    for note in cov.get('skipped_because_internal_api_changed', []):
+        out.write('  NOTE function-level spaces skipped (internal API '
+                  'changed, not a violation): %s\n' % note)
     for sp in cov['spaces']:
         out.write('  space %-38s size=%-9d nontrivial=%-9s %ss\n'
                   % (sp['name'], sp['size'], sp.get('nontrivial', '-'),
